@@ -189,6 +189,32 @@ def check_subtypes(m, acc):
                     acc.violation({"oracle": "other_fields_and_blocks_untouched", "middleware": name}, {"case": case, "observed": "changed", "expected": "unchanged"})
 
 
+ZEROS = [3, 10, 100, 4297, 4298, 4299, 4300, 4301, 5000, 20000]
+
+
+def check_zeros(m, acc):
+    """Digit strings with many leading zeros (around Python's 4300-digit limit of int() and beyond) denote the month
+    all the same; with an out-of-range number after the zeros they come back unchanged."""
+    for n in ZEROS:
+        for tail, is_month in ((str(m), True), (str(m + 12), False), ("0", False)):
+            v = "0" * n + tail
+            for inplace in (True, False):
+                for name, M in MWS:
+                    case = {"leading_zeros": n, "digits": tail, "middleware": name, "inplace": inplace}
+                    acc.case(nontrivial_key=("zeros", n, tail, name, inplace))
+                    r = run(M, v, inplace, acc, case)
+                    if r is None:
+                        continue
+                    res, sideok = r
+                    exp = expected(name, m) if is_month else v
+                    acc.step(("zeros", n, tail), name, canon(res) if len(str(res)) < 50 else "unchanged")
+                    if res != exp or type(res) is not type(exp):
+                        acc.violation(
+                            {"oracle": "month_table" if is_month else "non_month_unchanged", "middleware": name, "spelling": "digits after many zeros"},
+                            {"case": case, "observed": repr(res)[:60], "expected": repr(exp)[:60]},
+                        )
+
+
 def check_chains(m, acc):
     """Chains of three middlewares applied to the SAME library object(s), as a stack would: the last one decides,
     whatever ran before (metadata left on the entry by earlier stages must not matter)."""
@@ -304,6 +330,7 @@ def run_shard(shard, tier, acc):
     if shard[0] == "month":
         check_month(shard[1], acc)
         check_subtypes(shard[1], acc)
+        check_zeros(shard[1], acc)
         check_chains(shard[1], acc)
     elif shard[0] == "non":
         check_unchanged(NON_MONTHS, acc)
@@ -325,6 +352,7 @@ def replay(case, acc):
         for m in range(1, 13):
             check_month(m, acc)
             check_subtypes(m, acc)
+            check_zeros(m, acc)
         check_unchanged(NON_MONTHS, acc)
         check_unchanged(unicode_alphabet(), acc, exception_only=True)
 
